@@ -34,4 +34,10 @@ CLAIMS = {
         note="Trusts harness/hapcfg's evaluator (HAProxy semantics listed in the evidence assumptions) and the reference model written from the docs; requests with no documented winner accept either rule; terminating pods are covered by C11/C02 generators only.",
         technique="property-based testing (rapid): differential against a reference model of the documented routing, through an evaluator of the written configuration",
     ),
+    "C07": dict(
+        text="Feature-rich generated histories (auth of all kinds, TCP services, ssl-passthrough, blue/green, strict-host, dangling references) are synced by the real controller and every written configuration is linted for the reference-integrity conditions the statement lists; counts of each reference kind checked are reported.",
+        design_ref="DESIGN.md section 3, C07",
+        note="No HAProxy binary is available: loadability is the reference-integrity definition of the statement, implemented in harness/hapcfg/lint.go; one recorded finding (strict-host fallback backend) is excluded from histories by construction.",
+        technique="stateful property-based testing (rapid): structural invariant (reference integrity linter) over every written configuration",
+    ),
 }
